@@ -1054,6 +1054,14 @@ def search_matrix(ctx, lib, ocs):
         sk2 = lib.keys.SigningKey.from_secret_exponent(r.randrange(1, n), c)
         vk2 = sk2.get_verifying_key()
         full_combo = (r.choice(HASHES), r.choice(["string", "strings", "der"]))
+        # the default path: nonce drawn by the library from an entropy source
+        for _ in range(2):
+            m0 = rbytes(r, 20)
+            got = run_s(lib, lambda: vk.verify(sk.sign(m0, entropy=Entropy(r)), m0))
+            ctx.case(("entropy", oc.name, m0))
+            if got != ("ok", True):
+                ctx.fail("sign-then-verify", {"curve": oc.name, "d": sk.privkey.secret_multiplier, "msg": m0, "hash": "sha1",
+                                              "enc": "string", "canon": False, "mode": "entropy"}, "verify -> %r" % (got,))
         oracle_combo = {hn: (r.choice(["string", "strings", "der"]), r.random() < 0.5) for hn in HASHES}
         for hn in HASHES:
             hf = getattr(hashlib, hn)
@@ -1066,9 +1074,10 @@ def search_matrix(ctx, lib, ocs):
                     digest = hf(msg).digest()
                     e = oc.e_of(digest)
                     for mode in ("random", "deterministic"):
+                        knonce = r.randrange(1, n)
                         try:
                             if mode == "random":
-                                sig = sk.sign(msg, entropy=Entropy(r), hashfunc=hf, sigencode=enc)
+                                sig = sk.sign(msg, hashfunc=hf, sigencode=enc, k=knonce)
                             else:
                                 sig = sk.sign_deterministic(msg, hashfunc=hf, sigencode=enc)
                                 sig_again = sk.sign_deterministic(msg, hashfunc=hf, sigencode=enc)
@@ -1077,7 +1086,7 @@ def search_matrix(ctx, lib, ocs):
                         except Exception as ex:   # noqa
                             ctx.fail("sign-raises", dict(info, mode=mode), "%s: %s" % (type(ex).__name__, ex))
                             continue
-                        inf = dict(info, mode=mode, sig=sig_to_flat(kind, sig))
+                        inf = dict(info, mode=mode, sig=sig_to_flat(kind, sig), k=knonce if mode == "random" else None)
                         # 1. verifies in the library
                         try:
                             ok = vk.verify(sig, msg, hashfunc=hf, sigdecode=dec)
@@ -1140,7 +1149,8 @@ def search_range(ctx, lib, ocs):
             msg = rbytes(r, 9)
             digest = hashlib.new(hn, msg).digest()
             e = oc.e_of(digest)
-            rr, ss = sk.sign_digest(digest, sigencode=lambda a, b, o: (a, b), k=r.randrange(1, n), allow_truncate=True)
+            knonce = r.randrange(1, n)
+            rr, ss = sk.sign_digest(digest, sigencode=lambda a, b, o: (a, b), k=knonce, allow_truncate=True)
             bl = n.bit_length()
             l = lib.util.orderlen(n)
             outs = [0, n, n + 1, 2 * n, -1, 1 << bl, 1 << (bl + 1), 1 << (8 * l), (1 << (8 * l)) - 1] + \
@@ -1173,7 +1183,8 @@ def search_range(ctx, lib, ocs):
             # the valid one still verifies, and so does its canonical twin
             for (a, b) in ((rr, ss), (rr, n - ss)):
                 if vk.pubkey.verifies(e, E.Signature(a, b)) is not True:
-                    ctx.fail("valid-signature-rejected", {"curve": oc.name, "d": sk.privkey.secret_multiplier, "digest": digest, "r": a, "s": b}, "")
+                    ctx.fail("valid-signature-rejected", {"curve": oc.name, "d": sk.privkey.secret_multiplier, "digest": digest,
+                                                          "r": a, "s": b, "k": knonce, "twin": b != ss}, "")
 
 
 def search_malformed(ctx, lib, ocs):
@@ -1464,58 +1475,151 @@ def search(ctx):
         "non-trivial = everything except empty inputs; distinct by full input tuple")
 
 
+def _hx(v):
+    return bytes.fromhex(v["hex"]) if isinstance(v, dict) and "hex" in v else v
+
+
+def replay_one(lib, by, f):
+    """re-evaluate the violated predicate on the recorded input; True if it still fails"""
+    d, kind = f["data"], f["kind"]
+    if kind in ("out-of-range-verifies", "out-of-range-accepted", "out-of-range-wrong-error", "valid-signature-rejected"):
+        c = by[d["curve"]]
+        vk = lib.keys.SigningKey.from_secret_exponent(d["d"], c).get_verifying_key()
+        if kind == "valid-signature-rejected":
+            sk = lib.keys.SigningKey.from_secret_exponent(d["d"], c)
+            rr, ss = sk.sign_digest(_hx(d["digest"]), sigencode=lambda a, b, o: (a, b), k=d["k"], allow_truncate=True)
+            if d.get("twin"):
+                ss = c.order - ss
+            got = run_s(lib, vk.verify_digest, (rr, ss), _hx(d["digest"]), lambda s, o: s, True)
+            print("  sign_digest(k) gives r=%d s=%d%s; verify_digest ->" % (rr, ss, " (s replaced by n-s)" if d.get("twin") else ""), got, " expected True")
+            return got != ("ok", True)
+        got = run_s(lib, vk.verify_digest, (d["r"], d["s"]), _hx(d["digest"]), lambda s, o: s, True)
+        print("  verify_digest((r, s)) ->", got, " expected BadSignatureError")
+        return got[:2] != ("err", "SBadSig")
+    if kind == "generate_k-differs":
+        got = run_impl(lib.rfc6979.generate_k, d["order"], d["secexp"], getattr(hashlib, d["hash"]),
+                       _hx(d["data"]), d["retry_gen"], _hx(d["extra"]))
+        want = o_generate_k(d["order"], d["secexp"], _hx(d["data"]), d["hash"], _hx(d["extra"]), d["retry_gen"])
+        print("  generate_k ->", got, " RFC 6979 stream ->", want)
+        return got != ("ok", want)
+    if kind.startswith("rfc6979-vector"):
+        key = "%s/%s/%s" % (d["curve"], d["hash"], d["msg"])
+        kk, rr, ss = RFC_VECTORS[key]
+        sk = lib.keys.SigningKey.from_secret_exponent(RFC_KEYS[d["curve"]], by[d["curve"]])
+        got = run_impl(sk.sign_deterministic, d["msg"].encode(), getattr(hashlib, d["hash"]), lambda a, b, o: (a, b))
+        print("  sign_deterministic ->", got, "\n  RFC 6979        -> r=%s s=%s" % (rr, ss))
+        return got != ("ok", (int(rr, 16), int(ss, 16)))
+    if kind.startswith("toy-"):
+        cv = [c for t, c in zip(TOY, toy_curves(lib)) if t[5] == d["n"]][0]
+        oc = OC(cv)
+        sk = lib.keys.SigningKey.from_secret_exponent(d["d"], cv)
+        got = run_s(lib, sk.sign_number, d["e"], None, d["k"])
+        x = oc.mulG(d["k"])[0] % d["n"]
+        print("  sign_number ->", got, " x(kG) mod n =", x)
+        if got[0] != "ok":
+            return got[1] != "SRSZero"
+        return got[1][0] != x or not oc.verify(oc.mulG(d["d"]), d["e"], *got[1]) or \
+            sk.get_verifying_key().pubkey.verifies(d["e"], lib.ecdsa.Signature(*got[1])) is not True
+    if kind.startswith("digest-") or kind in ("sign-digest-raises", "long-digest-not-refused"):
+        c = by[d["curve"]]
+        oc = OC(c)
+        sk = lib.keys.SigningKey.from_secret_exponent(d["d"], c)
+        vk = sk.get_verifying_key()
+        digest = _hx(d["digest"])
+        if kind == "long-digest-not-refused":
+            got = run_s(lib, vk.verify_digest, (1, 1), digest, lambda s, o: s, False)
+            print("  verify_digest(allow_truncate=False) ->", got, " expected BadDigestError")
+            return got[:2] != ("err", "SBadDigest")
+        got = run_s(lib, sk.sign_digest, digest, None, lambda a, b, o: (a, b), d.get("k", 1), True)
+        print("  sign_digest ->", got)
+        if got[0] != "ok":
+            return got[1] != "SRSZero"
+        Q = (vk.pubkey.point.x(), vk.pubkey.point.y())
+        ok = oc.verify(Q, oc.e_of(digest), *got[1])
+        print("  signature is over the leftmost %d bits of the digest: %s" % (oc.qlen, ok))
+        v = run_s(lib, vk.verify_digest, got[1], digest, lambda s, o: s, True)
+        print("  verify_digest ->", v)
+        return (not ok) or v != ("ok", True)
+    if kind.startswith(("decoder-", "malformed-")):
+        c = by[d["curve"]]
+        vk = lib.keys.SigningKey.from_secret_exponent(d["d"], c).get_verifying_key()
+        enc, dec = enc_pair(lib, d["enc"], False)
+        sig = tuple(_hx(x) for x in d["sig"]) if d["enc"] == "strings" else _hx(d["sig"])
+        dr = run_s(lib, dec, sig, c.order)
+        vr = run_s(lib, vk.verify, sig, _hx(d["msg"]), getattr(hashlib, d["hash"]), dec)
+        print("  %s ->" % ENC[d["enc"]][1], dr)
+        print("  verify ->", vr, " expected BadSignatureError")
+        bad = vr[:2] != ("err", "SBadSig")
+        if dr[0] == "ok":
+            if d["enc"] == "der":
+                canon = dr[1][0] >= 0 and dr[1][1] >= 0 and lib.util.sigencode_der(dr[1][0], dr[1][1], c.order) == sig
+                print("  accepted DER is the canonical encoding of its value:", canon)
+                bad |= not canon
+            else:
+                bad |= sum(len(x) for x in (sig if d["enc"] == "strings" else [sig])) != 2 * lib.util.orderlen(c.order)
+        else:
+            want = "(SBase EUnexpectedDER)" if d["enc"] == "der" else "SMalformed"
+            bad |= dr[1] != want
+        return bad
+    if "msg" in d and d.get("curve") in by and "hash" in d and "enc" in d:
+        c = by[d["curve"]]
+        oc = OC(c)
+        sk = lib.keys.SigningKey.from_secret_exponent(d["d"], c)
+        vk = sk.get_verifying_key()
+        msg = _hx(d["msg"])
+        enc, dec = enc_pair(lib, d["enc"], d.get("canon", False))
+        hf = getattr(hashlib, d["hash"])
+        if d.get("mode") == "random" and d.get("k"):
+            sig = sk.sign(msg, hashfunc=hf, sigencode=enc, k=d["k"])
+        else:
+            sig = sk.sign_deterministic(msg, hashfunc=hf, sigencode=enc)
+        ok = run_s(lib, vk.verify, sig, msg, hf, dec)
+        print("  signature:", sig_to_flat(d["enc"], sig).hex())
+        print("  verify ->", ok)
+        bad = ok != ("ok", True)
+        rs = run_s(lib, dec, sig, c.order)
+        if rs[0] == "ok":
+            Q = (vk.pubkey.point.x(), vk.pubkey.point.y())
+            e = oc.e_of(hf(msg).digest())
+            iv = oc.verify(Q, e, *rs[1])
+            print("  independent SEC 1 verification:", iv)
+            bad |= not iv
+            if d.get("canon"):
+                print("  canonical: s <= n/2:", 2 * rs[1][1] <= c.order)
+                bad |= 2 * rs[1][1] > c.order
+            if d.get("mode") != "random":
+                k = o_generate_k(c.order, d["d"], hf(msg).digest(), d["hash"])
+                r0 = oc.mulG(k)[0] % c.order
+                s0 = pow(k, -1, c.order) * (e + d["d"] * r0) % c.order
+                if d.get("canon") and 2 * s0 > c.order:
+                    s0 = c.order - s0
+                print("  RFC 6979: r=%d s=%d; library: r=%d s=%d" % (r0, s0, rs[1][0], rs[1][1]))
+                bad |= (r0, s0) != tuple(rs[1])
+        if "bit" in d:
+            if kind.startswith("message"):
+                got = run_s(lib, vk.verify, sig, flip(msg, d["bit"]), hf, dec)
+            else:
+                flat = sig_to_flat(d["enc"], sig)
+                got = run_s(lib, vk.verify, sig_from_flat(d["enc"], flip(flat, d["bit"]), sig), msg, hf, dec)
+            print("  with bit %d flipped ->" % d["bit"], got, " expected BadSignatureError")
+            bad |= got[:2] != ("err", "SBadSig")
+        if kind.startswith("other-key"):
+            print("  (the other key is not recorded; see the detail above)")
+            bad = True
+        return bad
+    print("  (no specific replay for this kind; the recorded detail above is the observation)")
+    return True
+
+
 def replay(ctx, data):
     lib = L()
     rc = 0
     by = {c.name: c for c in real_curves(lib)}
     for f in data.get("fails", []):
-        d = f["data"]
         print(f["kind"], "|", f["detail"])
-        print("  input:", {k: (v if not isinstance(v, dict) else v.get("hex")) for k, v in d.items()})
+        print("  input:", {k: (v if not isinstance(v, dict) else v.get("hex")) for k, v in f["data"].items()})
         try:
-            if f["kind"] in ("out-of-range-verifies", "out-of-range-accepted", "out-of-range-wrong-error"):
-                c = by[d["curve"]]
-                vk = lib.keys.SigningKey.from_secret_exponent(d["d"], c).get_verifying_key()
-                dg = bytes.fromhex(d["digest"]["hex"])
-                got = run_s(lib, vk.verify_digest, (d["r"], d["s"]), dg, lambda s, o: s, True)
-                print("  verify_digest((r, s)) ->", got, " expected BadSignatureError")
-                rc |= got[:2] != ("err", "SBadSig")
-            elif f["kind"] == "generate_k-differs":
-                got = run_impl(lib.rfc6979.generate_k, d["order"], d["secexp"], getattr(hashlib, d["hash"]),
-                               bytes.fromhex(d["data"]["hex"]), d["retry_gen"], bytes.fromhex(d["extra"]["hex"]))
-                want = o_generate_k(d["order"], d["secexp"], bytes.fromhex(d["data"]["hex"]), d["hash"],
-                                    bytes.fromhex(d["extra"]["hex"]), d["retry_gen"])
-                print("  generate_k ->", got, " RFC 6979 stream ->", want)
-                rc |= got != ("ok", want)
-            elif f["kind"].startswith("rfc6979-vector"):
-                key = "%s/%s/%s" % (d["curve"], d["hash"], d["msg"])
-                kk, rr, ss = RFC_VECTORS[key]
-                sk = lib.keys.SigningKey.from_secret_exponent(RFC_KEYS[d["curve"]], by[d["curve"]])
-                got = run_impl(sk.sign_deterministic, d["msg"].encode(), getattr(hashlib, d["hash"]), lambda a, b, o: (a, b))
-                print("  sign_deterministic ->", got, "\n  RFC 6979        -> r=%s s=%s" % (rr, ss))
-                rc |= got != ("ok", (int(rr, 16), int(ss, 16)))
-            elif "msg" in d and "curve" in d and d["curve"] in by and "hash" in d and "enc" in d:
-                c = by[d["curve"]]
-                sk = lib.keys.SigningKey.from_secret_exponent(d["d"], c)
-                vk = sk.get_verifying_key()
-                msg = bytes.fromhex(d["msg"]["hex"])
-                enc, dec = enc_pair(lib, d["enc"], d.get("canon", False))
-                hf = getattr(hashlib, d["hash"])
-                sig = sk.sign_deterministic(msg, hashfunc=hf, sigencode=enc)
-                ok = run_s(lib, vk.verify, sig, msg, hf, dec)
-                print("  sign_deterministic then verify ->", ok)
-                rc |= ok != ("ok", True)
-                if "bit" in d:
-                    if f["kind"].startswith("message"):
-                        got = run_s(lib, vk.verify, sig, flip(msg, d["bit"]), hf, dec)
-                    else:
-                        flat = sig_to_flat(d["enc"], sig)
-                        got = run_s(lib, vk.verify, sig_from_flat(d["enc"], flip(flat, d["bit"]), sig), msg, hf, dec)
-                    print("  with bit %d flipped ->" % d["bit"], got, " expected BadSignatureError")
-                    rc |= got[:2] != ("err", "SBadSig")
-            else:
-                print("  (no specific replay for this kind; the recorded detail above is the observation)")
-                rc |= 1
+            rc |= bool(replay_one(lib, by, f))
         except Exception as ex:    # noqa
             print("  replay raised", repr(ex))
             rc |= 1
